@@ -153,6 +153,10 @@ func checkC10(r *core.Run) {
 	var evals, nontriv int64
 	eval := func(layer, s string) {
 		atomic.AddInt64(&evals, 1)
+		if p, msg := core.Try(func() { safehtml.HTMLEscaped(s) }); p {
+			r.Witness("panic", "", s, fmt.Sprintf("HTMLEscaped(%s) panicked: %s", core.Q(s), msg), map[string]string{"Input": s})
+			return
+		}
 		out := safehtml.HTMLEscaped(s).String()
 		if out != s {
 			atomic.AddInt64(&nontriv, 1)
@@ -211,6 +215,9 @@ func checkC10(r *core.Run) {
 	st2 := enum.Seqs(classAlpha, cl, func(s string, _ []int) { eval("class", s) })
 	r.Set("layer_class", fmt.Sprintf("%d class symbols, length<=%d: %d", len(classAlpha), cl, st2.States))
 
+	// length / alignment layer
+	nl := enum.Long([]string{"a", "\u00e9", "\u65e5", "\U0001F600", "\xff", " ", "&"}, []string{"<", "'", "\"", "&", "\x7f", "\x00", "\xc2", "\xef\xbf\xbe", "<'\x00", "&amp;", "\r\n"}, 300, func(s string) { eval("long", s) })
+	r.Set("layer_long", fmt.Sprintf("7 padding units x 11 cores x every padding length 0..300 x 3 placements: %d", nl))
 	// HTMLConcat is plain concatenation
 	vals := []string{"", "a", "<", "&amp;", "\x00", "\xff", "\"'", "&"}
 	var hs []safehtml.HTML
